@@ -57,14 +57,18 @@ def dataArm (v : SVariant ν) (nested : Meta) : Outcome ν :=
                 | .ok st => finishStruct s true (some v.name) st)
        | _ => .err (Err.unsupportedFormat "non-list"))
 
-/-- the emitted `from_list` -/
+/-- the emitted `from_list`.  In the single-item arm whatever the selected variant's arm returns
+    (early returns through `?` included: the arms run inside a closure) is spanned with the item
+    that selected the variant, `.map_err(|e| e.with_span(__nested))` — `with_span` only sets a span
+    where none is present, so more specific spans stay.  The errors for no item, several items and
+    a literal carry no span: there is no single item at fault. -/
 def enumFromList (e : SEnum ν) (outer : List NestedMeta) : Outcome ν :=
   match outer with
   | [] => .err (Err.new (.tooFewItems 1))
   | [.item nested] =>
       let name := nested.path'.toStr
       (match e.arm name with
-       | some v => dataArm v nested
+       | some v => (dataArm v nested).mapErr (·.withSpan nested.span)
        | none => .err ((e.unknownErr name).withSpan nested.span))
   | [.lit _] => .err (Err.unsupportedFormat "literal")
   | _ => .err (Err.new (.tooManyItems 1))
